@@ -34,9 +34,13 @@ type c16Op struct {
 	Submitter string `json:"submitter"` // R (rich) | E (exactly the fee) | P (poor)
 	Account   string `json:"account"`   // A | B | self
 	Sig       string `json:"sig"`       // A | B | A-upper | A-64 | A-66 | empty | garbage | A-malleated | A-other-msg | A-v27
+	Spell     string `json:"spell,omitempty"` // "" = lower-case bech32 of the account, "upper" = the all-upper-case spelling of the same address
 }
 
 func (o c16Op) String() string {
+	if o.Spell != "" {
+		return fmt.Sprintf("submit(%s proves %s[%s-case bech32] with %s)", o.Submitter, o.Account, o.Spell, o.Sig)
+	}
 	return fmt.Sprintf("submit(%s proves %s with %s)", o.Submitter, o.Account, o.Sig)
 }
 
@@ -141,7 +145,11 @@ func (cw *c16World) exec(parent sdk.Context, op c16Op) (ctx sdk.Context, ok bool
 		acc = cw.acct(op.Account)
 	}
 	sig, _, _ := cw.sigOf(op.Sig)
-	msg := &vauthtypes.MsgSubmitProofExternalOwnedAccount{Submitter: sub.Bech(), Account: acc.Bech(), Signature: sig}
+	accStr := acc.Bech()
+	if op.Spell == "upper" {
+		accStr = strings.ToUpper(accStr)
+	}
+	msg := &vauthtypes.MsgSubmitProofExternalOwnedAccount{Submitter: sub.Bech(), Account: accStr, Signature: sig}
 	// baseapp runs ValidateBasic of every message before the ante handler; a panic there is recovered like any other
 	err := msg.ValidateBasic()
 	if err == nil {
@@ -235,6 +243,12 @@ func c16Alphabet() []c16Op {
 			for _, sub := range []string{"R", "E", "P"} {
 				ops = append(ops, c16Op{Submitter: sub, Account: acc, Sig: sig})
 			}
+		}
+	}
+	// the same account under the other valid spelling of its bech32 address (with the signature that matches it)
+	for _, acc := range []string{"A", "B"} {
+		for _, sub := range []string{"R", "E"} {
+			ops = append(ops, c16Op{Submitter: sub, Account: acc, Sig: acc, Spell: "upper"})
 		}
 	}
 	return ops
@@ -525,7 +539,7 @@ func runC16(replay string) int {
 	run.Coverage["traces_validated_against_impl"] = int(run.Counter("transitions"))
 	run.Coverage["exhaustive"] = true
 	run.Coverage["max_depth"] = maxDepth
-	run.Coverage["rule"] = fmt.Sprintf("part 1: BFS over branch states with the %d-op submission alphabet (submitter {rich, exactly-the-fee, one-short} × account {A, B, submitter itself} × 10 signature variants: A's, B's, upper-case hex, 64/66 bytes, empty, garbage, (r,n−s,v⊕1) malleated, signed other message, v+27) to depth %d or fixpoint, full store hash as state identity, compared with a 3-field reference (proven set, balances, supply) after every transition; part 2: %d complete-transaction cases (proven set {∅,{A},{A,B}} × 3 vesting-creation messages × target {A,B} × routing {top level, MsgExec nested 1..5 with grantee = granter, MsgGrant, the nested message / the grant listed after a harmless MsgExec or MsgSend, or after a harmless MsgExec inside an outer MsgExec}) through FinalizeBlock", len(alpha), maxDepth, len(routes))
+	run.Coverage["rule"] = fmt.Sprintf("part 1: BFS over branch states with the %d-op submission alphabet (submitter {rich, exactly-the-fee, one-short} × account {A, B, submitter itself; A and B also under the upper-case spelling of the bech32 address} × 10 signature variants: A's, B's, upper-case hex, 64/66 bytes, empty, garbage, (r,n−s,v⊕1) malleated, signed other message, v+27) to depth %d or fixpoint, full store hash as state identity, compared with a 3-field reference (proven set, balances, supply) after every transition; part 2: %d complete-transaction cases (proven set {∅,{A},{A,B}} × 3 vesting-creation messages × target {A,B} × routing {top level, MsgExec nested 1..5 with grantee = granter, MsgGrant, the nested message / the grant listed after a harmless MsgExec or MsgSend, or after a harmless MsgExec inside an outer MsgExec}) through FinalizeBlock", len(alpha), maxDepth, len(routes))
 	return run.Finish()
 }
 
